@@ -3,6 +3,7 @@ package main
 import (
 	"fmt"
 	"go/ast"
+	"go/types"
 	"strings"
 )
 
@@ -44,4 +45,84 @@ func (v *FnV) beforeCall(st *State, ci *callInfo, call *ast.CallExpr) {
 		}
 		v.oblige(s2, "before:"+label, call, v.fr().ord[call], val.S, "before "+fs[0]+": "+r)
 	}
+}
+
+// `interruptible`: a syntactic obligation for functions that wait. Every channel
+// receive in the body must be a case of a select statement that also has a case
+// receiving from some X.Done() (a context's cancellation channel), and the body
+// must not call time.Sleep.
+func (v *FnV) checkInterruptible() {
+	if _, ok := v.fc.Extra["interruptible"]; !ok {
+		return
+	}
+	info := v.frames[0].pkg.TypesInfo
+	isDone := func(e ast.Expr) bool {
+		u, ok := unparen(e).(*ast.UnaryExpr)
+		if !ok || u.Op.String() != "<-" {
+			return false
+		}
+		call, ok := unparen(u.X).(*ast.CallExpr)
+		if !ok {
+			return false
+		}
+		sel, ok := call.Fun.(*ast.SelectorExpr)
+		return ok && sel.Sel.Name == "Done"
+	}
+	commExpr := func(s ast.Stmt) ast.Expr {
+		switch x := s.(type) {
+		case *ast.ExprStmt:
+			return x.X
+		case *ast.AssignStmt:
+			if len(x.Rhs) == 1 {
+				return x.Rhs[0]
+			}
+		}
+		return nil
+	}
+	covered := map[ast.Node]bool{}
+	bad := ""
+	nsel := 0
+	ast.Inspect(v.decl.Body, func(n ast.Node) bool {
+		switch x := n.(type) {
+		case *ast.SelectStmt:
+			nsel++
+			hasDone := false
+			for _, c := range x.Body.List {
+				cc := c.(*ast.CommClause)
+				if cc.Comm == nil {
+					continue
+				}
+				if e := commExpr(cc.Comm); e != nil {
+					covered[unparen(e)] = true
+					if isDone(e) {
+						hasDone = true
+					}
+				}
+			}
+			if !hasDone && bad == "" {
+				bad = "select without a <-ctx.Done() case at " + v.pos(x)
+			}
+		case *ast.UnaryExpr:
+			if x.Op.String() == "<-" && !covered[x] && bad == "" {
+				bad = "channel receive outside an interruptible select at " + v.pos(x)
+			}
+		case *ast.CallExpr:
+			if sel, ok := x.Fun.(*ast.SelectorExpr); ok && sel.Sel.Name == "Sleep" {
+				if id, ok := sel.X.(*ast.Ident); ok {
+					if pn, ok := info.Uses[id].(*types.PkgName); ok && pn.Imported().Path() == "time" && bad == "" {
+						bad = "time.Sleep at " + v.pos(x)
+					}
+				}
+			}
+		}
+		return true
+	})
+	ob := &Oblig{Name: v.name + "#interruptible", Fn: v.name, Kind: "interruptible", Pos: v.fc.Where,
+		Desc: "every wait is a select with a <-ctx.Done() case (no bare receive, no time.Sleep)", Solver: "syntactic"}
+	if bad == "" {
+		ob.Quick, ob.Result = "unsat", "unsat"
+	} else {
+		ob.Quick, ob.Result, ob.Output = "sat", "sat", bad
+	}
+	v.obligs = append(v.obligs, ob)
 }
